@@ -586,6 +586,72 @@ def h_chunks(H):
     S.explore(body)
 
 
+# ----------------------------------------------------------------------------- extract_wfs_cbin, after the jobs: the saved table is re-sorted so that row r describes traces row r
+@harness(PROPERTY, "extract_wfs_cbin_rows", functions=["ibldsp.waveform_extraction:extract_wfs_cbin"], replay=replay_chunks,
+         clause="the saved table, traces and channel map describe the same waveforms row by row")
+def h_rows(H):
+    import ast
+    from pyvc import interp as I
+    S = H.session("cbin.rows")
+    FN = WE.extract_wfs_cbin
+
+    def body(it):
+        n, nx, ncg = z3.Ints("nrows nx nchan_geom")
+        it.ctx.assume(z3.And(n >= 1, nx >= 1, ncg >= 1))
+        sample = A.fresh_array("sample", "int64", (n,), ranged=False)
+        cluster = A.fresh_array("cluster", "int64", (n,), ranged=False)
+        peak = A.fresh_array("peak_channel", "int64", (n,), ranged=False)
+        A.assume_range(peak, 0, ncg - 1)
+        it.ctx.assume(ncg <= 30000)
+        wi = A.fresh_array("waveform_index", "int64", (n,), ranged=False)
+        k, k2 = z3.Int(fresh_name("k")), z3.Int(fresh_name("k"))
+        # post-condition of _make_wfs_table (harness make_wfs_table) + ascending spike times (precondition of extract_wfs_cbin)
+        it.ctx.assume(z3.ForAll([k, k2], z3.Implies(z3.And(k >= 0, k < k2, k2 < n), sample.uf(k) <= sample.uf(k2)), patterns=[z3.MultiPattern(sample.uf(k), sample.uf(k2))]))
+        it.ctx.assume(z3.ForAll([k], z3.Implies(z3.And(k >= 0, k < n), z3.And(wi.uf(k) >= 0, wi.uf(k) < n)), patterns=[wi.uf(k)]))
+        it.ctx.assume(z3.ForAll([k, k2], z3.Implies(z3.And(k >= 0, k < n, k2 >= 0, k2 < n, z3.Or(cluster.uf(k) < cluster.uf(k2), z3.And(cluster.uf(k) == cluster.uf(k2), k < k2))), wi.uf(k) < wi.uf(k2)),
+                                   patterns=[z3.MultiPattern(wi.uf(k), wi.uf(k2))]))
+        w0, s0_, c0, p0 = wi.snapshot(), sample.snapshot(), cluster.snapshot(), peak.snapshot()
+        table = pdmodel.SFrame({"sample": sample, "cluster": cluster, "peak_channel": peak, "waveform_index": wi})
+        neigh = A.fresh_array("channel_neighbors", "int64", (ncg, nx), ranged=False)
+        node, filename = I.SOURCES.funcdef(FN)
+        it.session.note_function(FN)
+        env = I.Env(None, FN.__globals__, qualname="extract_wfs_cbin", filename=filename)
+        env.funcnode = node
+        env.vars.update(dict(wf_flat=table, channel_neighbors=neigh))
+        it.ctx.func = env.qualname
+        sort_st = [st for st in node.body if isinstance(st, ast.Expr) and "wf_flat.sort_values" in ast.unparse(st)]
+        map_st = [st for st in node.body if isinstance(st, ast.Assign) and isinstance(st.targets[0], ast.Name) and st.targets[0].id in ("peak_channel", "chan_map")]
+        if len(sort_st) != 1 or len(map_st) != 2 or node.body.index(sort_st[0]) > node.body.index(map_st[0]):
+            raise I.Unsupported("cannot identify the final re-sort of the table / the channel map in extract_wfs_cbin()")
+        it.exec_stmt(sort_st[0], env)
+        ls = getattr(table, "last_sort", None)
+        if ls is None:
+            raise I.Unsupported("the table is not re-sorted with sort_values")
+        perm = ls["perm"]
+        f = lambda r_: w0((perm.read((r_,)),))          # noqa  traces row of the waveform now described by table row r_
+        r, r2 = z3.Ints("r r2")
+        it.ctx.oblige("rows.lemma.strictly_increasing", A.forall([r, r2], lambda: z3.Implies(z3.And(r >= 0, r < r2, r2 < n), f(r) < f(r2))), "lemma",
+                      "after the re-sort by (unit, sample) the traces rows of consecutive table rows increase (ties in sample keep table order; unit blocks are contiguous)")
+        # a strictly increasing map of [0, n) into [0, n) is the identity: two inductions (upwards f(r) >= r, downwards f(r) <= r), applied here
+        it.ctx.oblige("rows.lemma.induction_up.base", f(z3.IntVal(0)) >= 0, "lemma", assume=False)
+        it.ctx.oblige("rows.lemma.induction_up.step", A.forall([r], lambda: z3.Implies(z3.And(r >= 0, r + 1 < n, f(r) >= r), f(r + 1) >= r + 1)), "lemma", assume=False)
+        it.ctx.oblige("rows.lemma.induction_down.base", f(n - 1) <= n - 1, "lemma", assume=False)
+        it.ctx.oblige("rows.lemma.induction_down.step", A.forall([r], lambda: z3.Implies(z3.And(r >= 1, r < n, f(r) <= r), f(r - 1) <= r - 1)), "lemma", assume=False)
+        rr = z3.Int(fresh_name("r"))
+        it.ctx.assume(z3.ForAll([rr], z3.Implies(z3.And(rr >= 0, rr < n), f(rr) == rr), patterns=[perm.read((rr,))]))
+        cols = {c_: table[c_].to_numpy() for c_ in ("sample", "cluster", "peak_channel", "waveform_index")}
+        it.ctx.oblige("rows.table_row_r_describes_traces_row_r", A.forall([r], lambda: z3.Implies(z3.And(r >= 0, r < n), cols["waveform_index"].read((r,)) == r)), "post",
+                      "row r of the saved table is the waveform written to row r of the traces file (write_wfs_chunk puts a waveform at its waveform_index)", assume=False)
+        it.ctx.oblige("rows.columns_move_together", A.forall([r], lambda: z3.Implies(z3.And(r >= 0, r < n), z3.And(cols["sample"].read((r,)) == s0_((perm.read((r,)),)), cols["cluster"].read((r,)) == c0((perm.read((r,)),)),
+                      cols["peak_channel"].read((r,)) == p0((perm.read((r,)),))))), "post", "the re-sort moves whole rows", assume=False)
+        it.exec_block(map_st, env)
+        cm = env.vars["chan_map"]
+        c = z3.Int("c")
+        it.ctx.oblige("rows.channel_map_row_r", z3.And(A.T(cm.shape[0]) == n, A.T(cm.shape[1]) == nx, A.forall([r, c], lambda: z3.Implies(z3.And(r >= 0, r < n, c >= 0, c < nx), cm.read((r, c)) == neigh.read((cols["peak_channel"].read((r,)), c))))), "post",
+                      "row r of the channel map is the neighbourhood of the peak channel of table row r", assume=False)
+    S.explore(body)
+
+
 # ----------------------------------------------------------------------------- WaveformsLoader.load_waveforms (data version 2)
 def replay_loader(vals, oid):
     b, _ = native_e2e(np.random.default_rng(21), 6100, 1000, 1, sizes=[5, 16, 30], max_wf=16, seed=4)
